@@ -22,6 +22,7 @@ type Job struct {
 	Hists [][]refdec.BS `json:"hists"`
 	Mode  app.Mode      `json:"mode"`
 	Dir   string        `json:"dir"` // scratch directory (fs backend)
+	Alt   []int         `json:"alt"` // per session: 1 other output size, 2 second application
 }
 
 type Answer struct {
@@ -54,7 +55,14 @@ func main() {
 				st = app.NewMemStorage()
 			}
 		}
-		s := app.NewSession(app.NewShared(job.App), job.Mode, st)
+		a := job.App
+		if i < len(job.Alt) && job.Alt[i] == 2 {
+			a = app.SecondApp(a)
+		}
+		s := app.NewSession(app.NewShared(a), job.Mode, st)
+		if i < len(job.Alt) && job.Alt[i] == 1 {
+			s.Cfg.OutputSize = app.OtherOutputSize(s.Cfg.OutputSize)
+		}
 		s.Cfg.SessionId = fmt.Sprintf("sess%d", i)
 		for _, in := range h {
 			step := s.Request([]byte(in))
